@@ -215,6 +215,17 @@ class VModel(core.Model):
             self.execute(control['warmup'])        # a burn-in the model runs itself before it is handed over
 
 
+class ReplModel(VModel):
+    """The same model without parameters (plain Monte-Carlo replication): where to find its control file comes from the environment."""
+    __slots__ = []
+
+    def __init__(self):
+        ctl = _os.environ['VERIF_C15_CTL']
+        with open(_os.path.join(ctl, 'control.json')) as f:
+            stop = _json.load(f)['stop']
+        super().__init__(ctl, stop)
+
+
 # ---------------------------------------------------------------------------------------------------------------------
 # C16: grid-search fixture.  TABLE / COUNTS are module globals: set by the harness before each call, inherited by forked workers.
 # ---------------------------------------------------------------------------------------------------------------------
